@@ -872,6 +872,7 @@ def c13(ctx):
     ctx.random_validate("smpdev", 32 if q else 480, 3 if q else 6)
     ctx.random_validate("smpdeg", 32, 1)
     ctx.random_validate("randfail", 160 if q else 1600, 90)
+    ctx.random_validate("nokeys", 96 if q else 960, 40)
     st = go_check(ctx, ["parsefuzz", "-seed", str(ctx.seed)] + ([] if q else ["-deep"]), "PARSEFUZZ", "FUZZVIOLATION",
                   "a parser entry point panicked, hung or allocated out of proportion")
     ctx.events += st.get("inputs", 0)
